@@ -182,7 +182,14 @@ def post_to_crs(args, kw, res, exc, snap):
         if not np.isfinite(lon).all() or np.abs(lon).max() > 170:
             return _mon.skip("Geometry.to_crs", "wrapdateline near the antimeridian (may legitimately restructure)")
     if exc is not None:
-        return _mon.fail("Geometry.to_crs", wit({"exc": exc}), key="to_crs-raises")
+        key = "to_crs-raises"
+        if wrapdateline:
+            # K6 in its other guise: the bogus segment makes the chop try to split a geometry 170+ degrees away from the antimeridian, and GEOS cannot split collections
+            with oracle_section():
+                _plain, e_plain = call(lambda: self.to_crs(target, resolution) if resolution is not None else self.to_crs(target))
+            if e_plain is None and "Splitting" in str(exc):
+                key = "antimeridian-chop-far-from-antimeridian"
+        return _mon.fail("Geometry.to_crs", wit({"exc": exc, "wrapdateline": bool(wrapdateline)}), key=key)
     src_geom = g
     if resolution == "auto":
         return _mon.skip("Geometry.to_crs", "auto resolution")
